@@ -50,7 +50,10 @@ class CancellableAction(Future):
 
         try:
             with kiwipy.capture_exceptions(self):
-                self.set_result(self._action(*args, **kwargs))
+                result = self._action(*args, **kwargs)
+                if not self.cancelled():
+                    # (the request can be withdrawn by user code that the action itself calls)
+                    self.set_result(result)
         finally:
             self._action = None  # type: ignore
 
